@@ -18,8 +18,9 @@ THEOREMS = [
     "C14_lazy_provided", "C14_steps_run_once", "C14_exceptions_propagate", "C14_no_other_exceptions",
     "C14_custom_adapt_replaces", "C14_providedBy_override_replaces", "C14_c_call_eq_py_call",
     "C14_hook_equals_queryAdapter", "C14_generated_py_eq_model", "C14_generated_c_eq_model",
+    "C14_generated_new_eq_model", "C14_dag_follows_precedence",
 ]
-RULE = ("exhaustive product of __conform__ behaviour (11) x provided (2) x alternate (absent, None, object) x "
+RULE = ("interface DAGs (diamonds, triangles, two roots, creation by call) in both base orders; exhaustive product of __conform__ behaviour (11) x provided (2) x alternate (absent, None, object) x "
         "custom __adapt__ (absent, None, value, raises, delegates to super) x every hook list up to length 3 "
         "(thorough: 4; quick: length <= 1 under a non-delegating custom __adapt__) over {None, value, raises}; interfacemethod inheritance chains up to length 3 with every "
         "combination of __adapt__ / other interfacemethod / nothing per level; natural declarations "
@@ -40,7 +41,10 @@ TRUSTED_BASE = ["interpreters Model/PyKernel.v and Model/CKernel.v (semantics of
 ASSUMPTIONS = ["hooks, __conform__ and custom __adapt__ do not mutate adapter_hooks or the object's declarations "
                "during the call (the C loop reads the list length once)",
                "values returned by hooks/__conform__/__adapt__ are distinct objects, distinct from obj and the alternate",
-               "interface chains are single-inheritance (one metaclass line), built with class statements"]
+               "interface DAGs: class statements (any number of bases; the metaclass line decides, a metaclass conflict is "
+               "predicted), InterfaceClass(...) / type(base)(...) calls with empty attrs; plain InterfaceClass subclasses "
+               "only with a single base; a custom __call__ defined with interfacemethod is outside the model (it replaces "
+               "the whole protocol)"]
 
 INTERFACE_PY = os.path.join(C.REPO, "src", "zope", "interface", "interface.py")
 COPT_C = os.path.join(C.REPO, "src", "zope", "interface", "_zope_interface_coptimizations.c")
@@ -222,7 +226,8 @@ def generate(run, tier):
         for chain in ([], [_lvl(["value", 60], False)], [_lvl(["none"], False)], [_lvl(["delegate"], True)],
                       [_lvl(None, False, ["true"])], [_lvl(["value", 60], False, None, True)]):
             for conform in (["absent"], ["retvalue", 50], ["retnone"]):
-                for hs in ([], [["value", 10]], [["none"], ["value", 11]], [["value", 10], ["value", 11]]):
+                for hs in (([], [["value", 10]], [["none"], ["value", 11]], [["value", 10], ["value", 11]]) if thorough
+                           else ([["value", 10]], [["none"], ["value", 11]])):
                     for alt in (None, 2, 3):
                         for provides in ((False, True) if of != "plain" else (False,)):
                             cases.append(_case("flav", chain, conform, provides, hs, alt, objflavour=of,
@@ -234,7 +239,7 @@ def generate(run, tier):
     for of in ("plain", "eqtrue", "eqtruene", "eqfalse", "eqraise"):
         for alt in (None, 5, 6, 7, 8, 9, 1):
             for shape in ("pp", "pk", "kk", "kk_rev"):
-                for chain in ([], [_lvl(["none"], False)], [_lvl(["delegate"], True)]):
+                for chain in (([], [_lvl(["none"], False)], [_lvl(["delegate"], True)]) if thorough else ([], [_lvl(["delegate"], True)])):
                     for conform, provides, hs in ((["absent"], False, []), (["retnone"], False, [["none"], ["none"]]),
                                                   (["absent"], False, [["none"], ["value", 11]]),
                                                   (["retvalue", 50], False, []), (["absent"], True, [["value", 10]])):
@@ -247,6 +252,44 @@ def generate(run, tier):
                 for alt in (None, 2):
                     cases.append({"kind": "registry", "req": req, "reg": reg, "factory_none": False,
                                   "provides": False, "alt": alt, "flavour": fl})
+    # 3g. interface DAGs: multiple inheritance where several bases bring custom __adapt__ / providedBy
+    #     (the metaclass line decides which one runs, or the class statement fails with a metaclass
+    #     conflict), interfaces created by InterfaceClass(...) / type(base)(...) calls, sub-interfaces
+    #     that add nothing
+    def nd(bases, how="class", ad=None, pv=None, other=False):
+        return {"bases": bases, "how": how, "adapt": ad, "prov": pv, "other": other}
+    templates = [
+        [[], [0], [0], [1, 2]], [[], [0], [0], [2, 1]],          # diamond, both base orders
+        [[], [0], [0, 1]], [[], [0], [1, 0]],                    # triangle
+        [[], [], [0, 1]], [[], [], [1, 0]],                      # two roots
+        [[], [0], [1], [0, 2]], [[], [0], [0], [1], [3, 2]],
+    ]
+    dopts = [(None, None, False), (None, None, False), (None, None, False), (None, None, True), ("value", None, False), ("delegate", None, False),
+             ("none", None, True), (None, ["true"], False), (None, ["delegate"], False), ("delegate", ["false"], False)]
+    dobjs = [(["absent"], False, [["none"], ["value", 11]], 1), (["absent"], True, [["value", 10]], None),
+             (["retnone"], False, [], None)]
+    for tpl in templates:
+        combos = list(itertools.product(dopts, repeat=len(tpl)))
+        for combo in (combos if thorough and len(combos) <= 4096 else rng.sample(combos, min(len(combos), 55))):
+            dag = [nd(b, "class", None if a is None else adapt_at(i, a), prov_at(i, pv), o)
+                   for i, (b, (a, pv, o)) in enumerate(zip(tpl, combo))]
+            for conform, provides, hs, alt in dobjs:
+                cases.append(_case("dag", [], conform, provides, hs, alt, dag=dag))
+    # creation by call: InterfaceClass(name, bases, {}) forgets the bases' custom class, type(base)(...) keeps it
+    for how in ("call_ic", "call_type"):
+        for a, pv, o in dopts:
+            for a2, pv2, o2 in ((None, None, False), ("delegate", None, False), (None, None, True)):
+                for shape in (0, 1, 2):
+                    root = nd([], "class", None if a is None else adapt_at(0, a), prov_at(0, pv), o)
+                    leaf = nd([1], "class", None if a2 is None else adapt_at(2, a2), None, o2)
+                    if shape == 0:
+                        dag = [root, nd([0], how)]
+                    elif shape == 1:
+                        dag = [root, nd([0], how), leaf]
+                    else:
+                        dag = [root, nd([0], how), nd([0, 1], "class", None if a2 is None else adapt_at(2, a2), None, o2)]
+                    for conform, provides, hs, alt in dobjs[:2]:
+                        cases.append(_case("dag", [], conform, provides, hs, alt, dag=dag))
     # 4. a real registry's adapter_hook
     for req in ("none", "IReq", "ISubReq"):
         for reg in ("none", "IReq", "Interface", "named", "None"):
@@ -387,6 +430,17 @@ def coq_case(case, obs, mode):
             uc, o, C.cbool(obs["ok"]), C.clist([_ev(e) for e in obs["log"]]), _outcome(obs["out"]))
     chain = C.clist(["(mkLvl %s %s %s %s)" % (_cbeh(l["adapt"]), _pbeh(l.get("prov")), C.cbool(l["other"]),
                                                C.cbool(l.get("plain", False))) for l in case["chain"]])
+    okterm = C.cbool(obs["ok"])
+    if case.get("dag") is not None:
+        HOW = {"class": "HClass", "call_ic": "HCallIC", "call_type": "HCallType"}
+        dag = C.clist(["(mkNode %s %s %s %s %s)" % (C.clist(["%d" % b for b in n["bases"]]), HOW[n["how"]], _cbeh(n["adapt"]),
+                                                    _pbeh(n.get("prov")), C.cbool(n["other"])) for n in case["dag"]])
+        if obs.get("conflict"):
+            # the class statement failed with a metaclass conflict: the model must predict exactly that
+            return ("(%s, [], (mkObj CAbsent true [] None), (true, true, true, true, dag_conflict %s), "
+                    "([EvGetConform; EvProvided], ReturnObj), None, None)" % (uc, dag))
+        chain = "(dag_line %s)" % dag
+        okterm = "(andb %s (negb (dag_conflict %s)))" % (okterm, dag)
     hooks = list(case["hooks"])
     nested = case.get("nested")
     nobs = obs.get("nested")
@@ -412,7 +466,7 @@ def coq_case(case, obs, mode):
     else:
         adapt = "(Some (%s, %s))" % (C.clist([_ev(e) for e in obs["alog"]]), _ares(obs["aout"]))
     return "(%s, %s, %s, (%s, true, %s, %s, %s), (%s, %s), %s, %s)" % (
-        uc, chain, o, C.cbool(vis_call), watch, watch, C.cbool(obs["ok"]),
+        uc, chain, o, C.cbool(vis_call), watch, watch, okterm,
         C.clist([_ev(e) for e in obs["log"]]), _outcome(obs["out"]), adapt, nterm)
 
 
@@ -425,7 +479,8 @@ def classify(case, obs):
             tuple((None if l["adapt"] is None else l["adapt"][0], l["other"],
                    None if l.get("prov") is None else l["prov"][0], l.get("plain", False)) for l in case["chain"]),
             case.get("objkind"), case.get("attach", "method"), case.get("watch", True),
-            json.dumps(case.get("nested"), sort_keys=True), case.get("objflavour"), case.get("flavour"))
+            json.dumps(case.get("nested"), sort_keys=True), case.get("objflavour"), case.get("flavour"),
+            json.dumps(case.get("dag"), sort_keys=True))
 
 
 def kind(case, obs):
@@ -470,7 +525,36 @@ def replay_text(case, obs, mode):
               "    if tag not in _vals:", "        _vals[tag] = FLAVOURS[(%d + len(_vals)) %% 15](tag)" % fl,
               "    return _vals[tag]", ""]
     base = "Interface"
-    if not case["chain"]:
+    if case.get("dag") is not None:
+        L.append("from zope.interface.interface import InterfaceClass")
+        for i, n in enumerate(case["dag"]):
+            bs = ", ".join("I%d" % b for b in n["bases"]) or "Interface"
+            if n["how"] == "call_ic":
+                L.append("I%d = InterfaceClass('I%d', (%s,), {})   # created by call: the class is InterfaceClass" % (i, i, bs))
+                continue
+            if n["how"] == "call_type":
+                L.append("I%d = type(%s)('I%d', (%s,), {})   # created by call with the first base's class" % (
+                    i, bs.split(",")[0], i, bs))
+                continue
+            L.append("class I%d(%s):   # a metaclass conflict here is a TypeError" % (i, bs))
+            body = []
+            a = n["adapt"]
+            if a is not None:
+                body += ["    @interfacemethod", "    def __adapt__(self, obj):", "        log.append('custom __adapt__ node %d')" % i,
+                         {"none": "        return None", "value": "        return V('custom value %d')" % i,
+                          "raise": "        raise ValueError('custom')",
+                          "delegate": "        return super().__adapt__(obj)"}[a[0]]]
+            pv = n.get("prov")
+            if pv is not None:
+                body += ["    @interfacemethod", "    def providedBy(self, obj):", "        log.append('custom providedBy node %d')" % i,
+                         {"true": "        return True", "false": "        return False",
+                          "raise": "        raise ValueError('providedBy')",
+                          "delegate": "        return super().providedBy(obj)"}[pv[0]]]
+            if n["other"]:
+                body += ["    @interfacemethod", "    def extra_method(self):", "        return %d" % i]
+            L += body or ["    pass"]
+        base = "I%d" % (len(case["dag"]) - 1)
+    elif not case["chain"]:
         L += ["class I0(Interface):", "    pass"]
         base = "I0"
     for i, l in enumerate(case["chain"]):
@@ -630,7 +714,7 @@ TECHNIQUE = ("Coq proof over a Gallina transcription of InterfaceBase.__call__/_
              "__init_subclass__; the Python and C kernels are regenerated from the source text on every run by "
              "fail-closed translators and proved equal to the model; exhaustive vm_compute correspondence (outcome and "
              "step log) with both implementations")
-LEVEL_TEXT = ("Machine-checked theorems (Properties/C14.v, 14 theorems, closed under the global context) state, for every "
+LEVEL_TEXT = ("Machine-checked theorems (Properties/C14.v, 17 theorems, closed under the global context) state, for every "
               "__conform__ behaviour, every hook list, every alternate and every interfacemethod inheritance chain, that "
               "outcome and executed steps are those of the five-step precedence, that later steps never run, that "
               "exceptions propagate, that a custom __adapt__ replaces the provided-check and hooks, and that the C fast "
@@ -643,7 +727,9 @@ LEVEL_TEXT = ("Machine-checked theorems (Properties/C14.v, 14 theorems, closed u
 LEVEL_NOTE = ("Trusted: Coq kernel/vm_compute; the interpreters of the two kernel languages (Model/PyKernel.v, Model/CKernel.v: "
               "meaning of each statement form and API call) and the translators' tables (harness/translate/adapt_py.py, "
               "adapt_c.py: reference counting dropped, the inlined provided-check of IB__adapt__ pinned token by token), both "
-              "validated by the exhaustive correspondence; the class-construction part of InterfaceClass.__new__ (which "
-              "classes are created) stays a hand-written model; the driver's instrumentation.  Not modelled: hooks that mutate adapter_hooks "
+              "validated by the exhaustive correspondence; of InterfaceClass.__new__ the flag decision and the bases of the "
+              "custom-methods class are regenerated from the source, while Python's own metaclass selection for a class "
+              "statement with several bases (most derived metaclass / conflict) is the hand-written dag_line, validated by "
+              "the DAG stream; the driver's instrumentation.  Not modelled: hooks that mutate adapter_hooks "
               "during the call, multiple-inheritance metaclass mixes, security-proxied declarations in IB__adapt__; the "
               "registry hook is abstract (a hook answering queryAdapter), tied by a stream with a real AdapterRegistry.")
